@@ -27,7 +27,7 @@ CFG = {
          '3 words, nil/empty slice); random heights <= 10 (thorough 12) with ceil(T/64)-1, +0, +1, +2 words, all-ones / all-zero / '
          'pattern words, bits forced at T-1, T, T+1 and at the last bit; a few heights 13/14 with sparse bitmaps (bits in the last words). Decode/roundtrip: every T <= 10 (14) x every subset of the '
          'stored nodes; random subsets (all, 1/8, 1/2, first+last, leaves only). '
-         'Widening ops on a share of the same inputs: AllPaths/split (window cut at its middle or at / next to a word inside it), AllPaths/index (heights <= 11), Decode/reencode; PathsOf/decode: 0..20 sorted keys sharing their first from in {0,3,8,13,16,21} bits, heights 1..14, a key reaches the leaf level (with a random tail, repeated leaf values) or ends exactly on a stored level; non-trivial = at least two distinct paths. AllPaths/subtree: every T < 2^5 x every node, random heights 0..30 with nodes 0..12 levels above the leaves (non-trivial: an inner node). Non-trivial: AllPaths returns something and the window clips (from > 0 or a stored word >= to); Decode / roundtrip selects '
+         'Widening ops on a share of the same inputs: AllPaths/split (window cut at its middle or at / next to a word inside it), AllPaths/index (heights <= 11), Decode/reencode; PathsOf/decode: 0..20 sorted keys sharing their first from in {0,3,8,13,16,21} bits, heights 1..10 (11..14 in 1/20), a key reaches the leaf level (with a random tail, repeated leaf values) or ends exactly on a stored level; non-trivial = at least two distinct paths. AllPaths/subtree: every T < 2^5 x every node, random heights 0..30 with nodes 0..12 levels above the leaves (non-trivial: an inner node). Non-trivial: AllPaths returns something and the window clips (from > 0 or a stored word >= to); Decode / roundtrip selects '
          'some but not all stored nodes; distinct = distinct shape key (op, mask kind, height bucket, class of from and of to '
          '(0 / max / word / word+1 / word-1 / off / beyond), bitmap length short/exact/long, bits beyond T, size bucket)',
  'assumptions': ['1 <= bitmapSize < 2^31 (int32, height <= 30)', '0 <= from, to < 2^64',
